@@ -360,6 +360,30 @@ def r_elemtable(ctx) -> RuleResult:
     ea = repo.module("tucan.element_attributes")
     syms = repo.try_const(ea, "element_symbols", _NO)
     attrs = repo.try_const(ea, "ELEMENT_ATTRS", _NO)
+    # a table object of a class of its own: does it answer for keys it does not hold?
+    tv = ea.assigns.get("ELEMENT_ATTRS")
+    if isinstance(tv, ast.Call):
+        rc = repo.resolve_dotted(ea, tv.func)
+        if rc and rc[0] == "class":
+            ci = rc[1]
+            lenient = []
+            for mname in ("__missing__", "__getitem__", "get", "__contains__"):
+                mth = ci.methods.get(mname)
+                if mth is None:
+                    continue
+                returns_value = [r for r in own_walk(mth.node) if isinstance(r, ast.Return) and r.value is not None
+                                 and not (isinstance(r.value, ast.Call) and isinstance(r.value.func, ast.Attribute) and isinstance(r.value.func.value, ast.Call)
+                                          and norm(r.value.func.value.func) == "super" and [norm(a) for a in r.value.args] == [p_ for p_ in params_of(mth.node)[1:]])]
+                if returns_value:
+                    lenient.append((mth, returns_value[0]))
+            res.inst(ci.fq, f"the element table is a {ci.name}: look-ups answer only for keys it holds", "fail" if lenient else "ok")
+            if lenient:
+                mth, r0 = lenient[0]
+                res.fail(Finding("R-ELEMTABLE", F0 if (F0 := "tucan/element_attributes.py") else "", f"{ci.name}.{mth.name}", norm(r0)[:100],
+                                 f"the element table answers look-ups for spellings that are not among its keys ({ci.name}.{mth.name} returns a value of its own): readers and parser keep the symbol "
+                                 "as it was written, so an atom can carry a symbol that is not the table's spelling of its element; its sum formula is then outside the grammar or names other elements",
+                                 line=r0.lineno))
+                return res
     if attrs is _NO or not isinstance(attrs, dict):
         raise AnalysisError("ELEMENT_ATTRS is no longer a constant table (anchor vanished)")
     an = repo.const("tucan.graph_attributes", "ATOMIC_NUMBER")
@@ -625,6 +649,18 @@ def r_codec(ctx) -> RuleResult:
     sortf = ctx.repo.find_func("tucan.graph_utils.sort_molecule_by_attribute")
     wfq = {f.fq for f in serializer_writers(ctx)}
     writer_calls = [cs for cs in sites(ctx, ser) if cs.kind == "tucan" and cs.target.fq in wfq and cs.node.args]
+    if not writer_calls:
+        # the writers may be called by a helper of the serializer (one that assembles the sections)
+        best = None
+        for q in ctx.cg.closure([ser.fq]):
+            f_ = ctx.cg.funcs[q]
+            if f_.module.name != ser.module.name or q in wfq and not any(cs.kind == "tucan" and cs.target.fq in wfq and cs.target.fq != q for cs in sites(ctx, f_)):
+                continue
+            wc_ = [cs for cs in sites(ctx, f_) if cs.kind == "tucan" and cs.target.fq in wfq and cs.target.fq != q and cs.node.args]
+            if len(wc_) >= 2 and (best is None or len(wc_) > len(best[1])):
+                best = (f_, wc_)
+        if best is not None:
+            ser, writer_calls = best
     if not writer_calls:
         # writers reached through a table / loop variable: the argument of every call of a non-tucan callee in the serializer
         # that receives a local graph stands for them
